@@ -515,9 +515,10 @@ def family(name, quick=True):
         # the result is the set that collect_events handed out (sorted): a buffer that loses or repeats an event shows
         out.append(("resumable_set(1,3)", resumable(1, 3, 2, 0, 0, result="collected"), []))
         out.append(("resumable_wait", resumable_wait(), [("Resp1", None), ("Resp", None)]))
-        out.append(("resumable_two_waiters", resumable_two_waiters(), [("Resp1", None), ("Resp", None)]))
         out.append(("resumable_handlers", resumable_handlers(), []))
         out.append(("resumable_shared_input", resumable_shared_input(), [("Resp1", None)]))
+        # (new programs go to the END of this list: each program's schedule sample is drawn from one seeded stream in list order)
+        out.append(("resumable_two_waiters", resumable_two_waiters(), [("Resp1", None), ("Resp", None)]))
     elif name == "waits":
         out.append(("chain(5,1)", pipeline(retry_max=4, wait=["chain", [5, 1]], fail_until=99), []))
         out.append(("chain(1,4,2)", pipeline(retry_max=5, wait=["chain", [1, 4, 2]], fail_until=99), []))
